@@ -74,8 +74,53 @@ func c11show(s string) string { return fmt.Sprintf("%q", s) }
 // ---- generators
 
 type c11gen struct {
-	ctx *hlib.Ctx
-	r   *hlib.Rng
+	ctx  *hlib.Ctx
+	r    *hlib.Rng
+	jobs []func(g *c11gen) *hlib.Case // sandbox cases: run on a worker pool, emitted in queue order
+	out  *hlib.Case                   // set while a job runs: where emit puts the case
+}
+
+// emit writes a case directly (pure streams) or hands it to the job runner
+func (g *c11gen) emit(c hlib.Case) {
+	if g.out != nil {
+		*g.out = c
+		return
+	}
+	g.ctx.Emit(c)
+}
+
+// later queues a sandbox case; it runs with a generator of its own (forked PRNG, fixed at queue time)
+func (g *c11gen) later(f func(g *c11gen)) {
+	seed := g.r.U64()
+	g.jobs = append(g.jobs, func(_ *c11gen) *hlib.Case {
+		var c hlib.Case
+		sub := &c11gen{ctx: g.ctx, r: hlib.NewRng(seed), out: &c}
+		f(sub)
+		return &c
+	})
+}
+
+func (g *c11gen) flush() {
+	res := make([]*hlib.Case, len(g.jobs))
+	sem := make(chan struct{}, 8)
+	done := make(chan int)
+	for i := range g.jobs {
+		go func(i int) {
+			sem <- struct{}{}
+			res[i] = g.jobs[i](nil)
+			<-sem
+			done <- i
+		}(i)
+	}
+	for range g.jobs {
+		<-done
+	}
+	for _, c := range res {
+		if c != nil && c.Coq != "" {
+			g.ctx.Emit(*c)
+		}
+	}
+	g.jobs = nil
 }
 
 func (g *c11gen) pick(xs []string) string { return xs[g.r.Intn(len(xs))] }
@@ -437,7 +482,7 @@ func c11ok(code int) bool { return code >= 200 && code < 300 }
 
 func (g *c11gen) emitClean(p, kind string) {
 	o := filepath.Clean(p)
-	g.ctx.Emit(hlib.Case{Coq: "CClean " + c11xs(p) + " " + c11xs(o), NT: o != p, Kind: "clean-" + kind, Hist: []string{"Clean"},
+	g.emit(hlib.Case{Coq: "CClean " + c11xs(p) + " " + c11xs(o), NT: o != p, Kind: "clean-" + kind, Hist: []string{"Clean"},
 		Sample: map[string]string{"op": "filepath.Clean", "in": c11show(p), "out": c11show(o)}})
 }
 
@@ -447,19 +492,19 @@ func (g *c11gen) emitJoin(elems []string, kind string) {
 	for i, e := range elems {
 		xs[i] = c11xs(e)
 	}
-	g.ctx.Emit(hlib.Case{Coq: "CJoin " + hlib.List(xs) + " " + c11xs(o), NT: o != "", Kind: "join-" + kind, Hist: []string{"Join"},
+	g.emit(hlib.Case{Coq: "CJoin " + hlib.List(xs) + " " + c11xs(o), NT: o != "", Kind: "join-" + kind, Hist: []string{"Join"},
 		Sample: map[string]interface{}{"op": "filepath.Join", "in": fmt.Sprintf("%q", elems), "out": c11show(o)}})
 }
 
 func (g *c11gen) emitDir(p, kind string) {
 	o := filepath.Dir(p)
-	g.ctx.Emit(hlib.Case{Coq: "CDir " + c11xs(p) + " " + c11xs(o), NT: o != ".", Kind: "dir-" + kind, Hist: []string{"Dir"},
+	g.emit(hlib.Case{Coq: "CDir " + c11xs(p) + " " + c11xs(o), NT: o != ".", Kind: "dir-" + kind, Hist: []string{"Dir"},
 		Sample: map[string]string{"op": "filepath.Dir", "in": c11show(p), "out": c11show(o)}})
 }
 
 func (g *c11gen) emitUnesc(raw, kind string) {
 	o, err := url.PathUnescape(raw)
-	g.ctx.Emit(hlib.Case{Coq: "CUnesc " + c11xs(raw) + " " + c11opt(err == nil, o), NT: err == nil && o != raw, Kind: "unescape-" + kind,
+	g.emit(hlib.Case{Coq: "CUnesc " + c11xs(raw) + " " + c11opt(err == nil, o), NT: err == nil && o != raw, Kind: "unescape-" + kind,
 		Hist:   []string{"PathUnescape"},
 		Sample: map[string]interface{}{"op": "url.PathUnescape", "in": c11show(raw), "out": c11show(o), "err": err != nil}})
 }
@@ -471,7 +516,7 @@ func (g *c11gen) emitLocal(dir, name, kind string) {
 		p = e.GetPath()
 	}
 	tags := []string{}
-	g.ctx.Emit(hlib.Case{Coq: "CLocal " + c11xs(dir) + " " + c11xs(name) + " " + c11opt(err == nil, p), NT: err == nil,
+	g.emit(hlib.Case{Coq: "CLocal " + c11xs(dir) + " " + c11xs(name) + " " + c11opt(err == nil, p), NT: err == nil,
 		Kind: "local-" + kind, Hist: []string{"LocalFactory.Create"}, Tags: tags,
 		Sample: map[string]interface{}{"op": "localFileEntryFactory.Create+GetPath", "dir": c11show(dir), "name": c11show(name), "path": c11show(p), "err": err != nil}})
 }
@@ -480,7 +525,7 @@ func (g *c11gen) emitCas(dir, name, kind string) {
 	e, err := base.NewCASFileEntryFactory().Create(name, base.NewFileState(dir))
 	c11must(err)
 	p := e.GetPath()
-	g.ctx.Emit(hlib.Case{Coq: "CCas " + c11xs(dir) + " " + c11xs(name) + " " + c11xs(p), NT: len(name) >= 4,
+	g.emit(hlib.Case{Coq: "CCas " + c11xs(dir) + " " + c11xs(name) + " " + c11xs(p), NT: len(name) >= 4,
 		Kind: "cas-" + kind, Hist: []string{"CASFactory.Create"},
 		Sample: map[string]interface{}{"op": "casFileEntryFactory.Create+GetPath", "dir": c11show(dir), "name": c11show(name), "path": c11show(p)}})
 }
@@ -517,7 +562,7 @@ func (g *c11gen) emitRoute(addr, raw, kind string) {
 			nt = true
 		}
 	}
-	g.ctx.Emit(hlib.Case{Coq: "CRoute " + c11xs(raw) + " " + op + " " + on, NT: nt, Kind: "route-" + kind, Hist: []string{"chi+ParseParam"},
+	g.emit(hlib.Case{Coq: "CRoute " + c11xs(raw) + " " + op + " " + on, NT: nt, Kind: "route-" + kind, Hist: []string{"chi+ParseParam"},
 		Sample: map[string]interface{}{"op": "GET /p/{x}/end", "raw": c11show(raw), "status": code, "chi_param": c11show(sp), "parsed": c11show(sn)}})
 }
 
@@ -562,7 +607,7 @@ func (g *c11gen) emitStore(i int, name, kind string) {
 	after := c11files(s, "")
 	outside := c11diff(before, c11snap(b.base, skip))
 	tags := []string{}
-	g.ctx.Emit(hlib.Case{
+	g.emit(hlib.Case{
 		Coq: fmt.Sprintf("CStore %s %s %s %s %d", c11xs(name), hlib.B(ok), c11list(files), c11list(after), outside),
 		NT:  ok, Kind: "store-" + kind, Hist: []string{"CreateFile", "SetFileMetadata", "ReadWriter", "GetFileMetadata", "DeleteFile"}, Tags: tags,
 		Sample: map[string]interface{}{"op": "base.FileStore create/metadata/write/delete", "name": c11show(name), "ok": ok,
@@ -634,7 +679,7 @@ func (g *c11gen) emitTag(i, ep int, raw, kind string) {
 	g.emitHTTP(ep, raw, "", ok, files, outside, leak, kind, hist)
 }
 
-func (g *c11gen) emitOrigin(i, ep int, mk func(uid string) (string, string)) {
+func (g *c11gen) emitOrigin(i, ep int, mk func(g *c11gen, uid string) (string, string)) {
 	b := c11newBox(g.ctx.Tmp, i)
 	defer b.close()
 	cdir, udir := filepath.Join(b.w, "c"), filepath.Join(b.w, "u")
@@ -674,11 +719,11 @@ func (g *c11gen) emitOrigin(i, ep int, mk func(uid string) (string, string)) {
 	}
 	code, h := call("POST", startT, nil, nil)
 	if !c11ok(code) {
-		g.ctx.Emit(hlib.Case{Coq: "CClean (X 0x1) (X 0x12e)", Kind: "origin-start-failed", Incon: true})
+		g.emit(hlib.Case{Coq: "CClean (X 0x1) (X 0x12e)", Kind: "origin-start-failed", Incon: true})
 		return
 	}
 	uid := h.Get("Location")
-	raw, kind := mk(uid)
+	raw, kind := mk(g, uid)
 	before := c11snap(b.base, skip)
 	cr := [][2]string{{"Content-Range", fmt.Sprintf("0-%d", len(content))}}
 	ok := true
@@ -702,7 +747,7 @@ func (g *c11gen) emitOrigin(i, ep int, mk func(uid string) (string, string)) {
 	case c11DupCommit:
 		t := "/namespace/" + ns + "/blobs/" + d.String() + "/uploads/" + uid
 		if code, _ := call("PATCH", t, cr, content); !c11ok(code) {
-			g.ctx.Emit(hlib.Case{Coq: "CClean (X 0x1) (X 0x12e)", Kind: "origin-patch-failed", Incon: true})
+			g.emit(hlib.Case{Coq: "CClean (X 0x1) (X 0x12e)", Kind: "origin-patch-failed", Incon: true})
 			return
 		}
 		before = c11snap(b.base, skip)
@@ -717,7 +762,7 @@ func (g *c11gen) emitOrigin(i, ep int, mk func(uid string) (string, string)) {
 }
 
 func (g *c11gen) emitHTTP(ep int, raw, aux string, ok bool, files []string, outside int, leak bool, kind string, hist []string) {
-	g.ctx.Emit(hlib.Case{
+	g.emit(hlib.Case{
 		Coq: fmt.Sprintf("CHttp %d %s %s %s %s %d %s", ep, c11xs(raw), c11xs(aux), hlib.B(ok), c11list(files), outside, hlib.B(leak)),
 		NT:  ok, Kind: c11epName[ep] + "-" + kind, Hist: hist,
 		Key: fmt.Sprintf("%d|%s|%v", ep, raw, ok),
@@ -820,12 +865,14 @@ func c11(ctx *hlib.Ctx) {
 		}
 	}
 	for _, n := range []string{"..", ".", "a", "a/b", "repo/img:tag", "...", "a\x00", strings.Repeat("n", 300), "../a", "a/..", "/a", "a/", "data", "a/data/b"} {
-		g.emitStore(next(), n, "seed")
+		i := next()
+		g.later(func(g *c11gen) { g.emitStore(i, n, "seed") })
 	}
 	for _, raw := range []string{"%2E%2E", "..", "%2e%2e", "%252E%252E", ".", "%2E", "a", "repo%2Fimg:tag", "a%2F..%2F..", "..%2Fu", "%2E%2E%2F", "a%00", "%", "%zz", "a%2F%2E%2E%2F%2E%2E%2Fdata"} {
 		g.emitRoute(raddr, raw, "seed")
 		for _, ep := range []int{c11TagDupPutGet, c11TagPutGet, c11TagGet, c11TagDupPutReplicate} {
-			g.emitTag(next(), ep, raw, "seed")
+			i := next()
+			g.later(func(g *c11gen) { g.emitTag(i, ep, raw, "seed") })
 		}
 	}
 	for _, ep := range []int{c11ClusterUpload, c11InternalUpload, c11DupCommit} {
@@ -838,7 +885,8 @@ func c11(ctx *hlib.Ctx) {
 			func(uid string) (string, string) { return uid + "%2F..%2F" + uid, "seed-up-and-back" },
 			func(uid string) (string, string) { return "..%2Fu%2F" + uid, "seed-out-and-back" },
 		} {
-			g.emitOrigin(next(), ep, f)
+			i := next()
+			g.later(func(g *c11gen) { g.emitOrigin(i, ep, func(_ *c11gen, uid string) (string, string) { return f(uid) }) })
 		}
 	}
 	hexd := c11digest("x").Hex()
@@ -878,7 +926,8 @@ func c11(ctx *hlib.Ctx) {
 		})
 		rec("./a", nil, 3, func(s string) {
 			if s != "" {
-				g.emitStore(next(), s, "exhaustive")
+				i := next()
+				g.later(func(g *c11gen) { g.emitStore(i, s, "exhaustive") })
 			}
 		})
 	}
@@ -935,17 +984,23 @@ func c11(ctx *hlib.Ctx) {
 		if len(name) > 2000 {
 			continue
 		}
-		g.emitStore(next(), name, nk)
+		k := next()
+		g.later(func(g *c11gen) { g.emitStore(k, name, nk) })
 	}
 	for i := 0; i < nHTTP; i++ {
 		switch k := g.r.Intn(10); {
 		case k < 6:
 			raw, rk := g.rawName()
-			g.emitTag(next(), []int{c11TagPutGet, c11TagDupPutGet, c11TagDupPutGet, c11TagGet, c11TagDupPutReplicate}[g.r.Intn(5)], raw, rk)
+			ep := []int{c11TagPutGet, c11TagDupPutGet, c11TagDupPutGet, c11TagGet, c11TagDupPutReplicate}[g.r.Intn(5)]
+			k := next()
+			g.later(func(g *c11gen) { g.emitTag(k, ep, raw, rk) })
 		default:
-			g.emitOrigin(next(), []int{c11ClusterUpload, c11InternalUpload, c11DupCommit}[g.r.Intn(3)], g.uidVariant)
+			ep := []int{c11ClusterUpload, c11InternalUpload, c11DupCommit}[g.r.Intn(3)]
+			k := next()
+			g.later(func(g *c11gen) { g.emitOrigin(k, ep, (*c11gen).uidVariant) })
 		}
 	}
+	g.flush()
 }
 
 func (g *c11gen) pick2(xs ...int) int { return xs[g.r.Intn(len(xs))] }
